@@ -42,14 +42,14 @@ func HistStrings(h []Step) []string {
 // Facts is the reference model's own bookkeeping about a history prefix, used by the
 // finding predicates (never taken from the implementation).
 type Facts struct {
-	RemovedRemote   [][]string // paths removed through the cache while they existed in the committed remote tree
-	RemovedAny      [][]string // every path given to a successful Remove/RemoveAll
-	RemoveMissing   bool       // a Remove/RemoveAll of a path the model does not have was accepted
-	DirCopies       [][]string // destinations of directory copies
-	Overwrites      [][]string // destinations of copies onto an existing node
-	TypeConflicts   [][]string // paths of operations the model rejects but the cache accepted
-	FailedCopies    [][]string // destinations of copies that failed (journal entry remains)
-	Commits         int
+	RemovedRemote [][]string // paths removed through the cache while they existed in the committed remote tree
+	RemovedAny    [][]string // every path given to a successful Remove/RemoveAll
+	RemoveMissing bool       // a Remove/RemoveAll of a path the model does not have was accepted
+	DirCopies     [][]string // destinations of directory copies
+	Overwrites    [][]string // destinations of copies onto an existing node
+	TypeConflicts [][]string // paths of operations the model rejects but the cache accepted
+	FailedCopies  [][]string // destinations of copies that failed (journal entry remains)
+	Commits       int
 }
 
 // Divergence describes the first departure of the cache from the model.
@@ -70,21 +70,24 @@ type Options struct {
 
 // Run holds the subjects of one history.
 type Run struct {
-	Remote filesystem.Filespace
-	Cache  *fscache.Cache
-	Subj   *mfs.Subject
-	Model  *mfs.Model // expected cache view
-	RM     *mfs.Node  // expected remote tree (as of the last successful Commit)
-	Facts  Facts
-	Hist   []Step
-	Opt    Options
-	tmp    string
-	Ambiguous string
-	Mutations int64
-	ReadsChecked int64
-	TreeChecks int64
+	Remote          filesystem.Filespace
+	Cache           *fscache.Cache
+	Subj            *mfs.Subject
+	Model           *mfs.Model // expected cache view
+	RM              *mfs.Node  // expected remote tree (as of the last successful Commit)
+	Facts           Facts
+	Hist            []Step
+	Opt             Options
+	tmp             string
+	Faults          *mfs.Faults // non-nil: the remote is wrapped in a fault-injecting decorator
+	FailedCommits   int64
+	NoRemoves       bool // after a failed Commit the remote is partly updated: removes are no longer known to be clean
+	Ambiguous       string
+	Mutations       int64
+	ReadsChecked    int64
+	TreeChecks      int64
 	IsolationChecks int64
-	CommitsChecked int64
+	CommitsChecked  int64
 }
 
 // InitTree describes the initial remote tree.
@@ -322,8 +325,23 @@ func (r *Run) doCommit(i int) (*Divergence, bool) {
 	if !r.Opt.CheckRemote {
 		if err == nil {
 			r.RM = r.Model.Root.Clone()
+			return nil, false
 		}
-		return nil, err != nil
+		if r.Faults != nil && r.Faults.FiredPoint() != "" && r.Opt.CheckReads {
+			// the remote failed during Commit: every pending operation must still be visible
+			r.FailedCommits++
+			r.NoRemoves = true
+			obs, anom := mfs.ObserveLimit(r.Cache, r.Model.Root.Depth()+3, 100000)
+			r.TreeChecks++
+			if len(anom) > 0 {
+				return &Divergence{Prop: "C07", Class: "view-anomaly", Detail: fmt.Sprintf("after the failed Commit at step %d (%s) the cache view is inconsistent: %s", i, r.Faults.FiredPoint(), strings.Join(anom, "; ")), Step: i, Path: anomPath(anom[0])}, true
+			}
+			if d, at := diffAt(r.Model.Root, obs); d != "" {
+				return &Divergence{Prop: "C07", Class: "view-mismatch-after-failed-commit", Detail: fmt.Sprintf("after the Commit at step %d failed (%s) the cache view no longer shows the pending operations: %s", i, r.Faults.FiredPoint(), d), Step: i, Path: at}, true
+			}
+			return nil, false
+		}
+		return nil, true
 	}
 	if err != nil {
 		// without injected faults a Commit error means the history holds something the remote refuses
